@@ -96,6 +96,7 @@ func StartNode(cfg NodeConfig, chain *forge.Chain) (*Node, error) {
 		cfg.LogLevel = log.ErrorLevel
 	}
 	log.SetLevel(cfg.LogLevel)
+	installErrRing()
 	os.MkdirAll(filepath.Dir(cfg.DBPath), 0755)
 
 	v := viper.New()
@@ -203,6 +204,50 @@ func ReadSynced(db *sql.DB) (uint32, error) {
 	return bs.Synced, nil
 }
 
+// errRing keeps the daemon's most recent error-level log line (whatever the log output is), so that a
+// wedge can be reported with its cause.
+type errRing struct {
+	mu   sync.Mutex
+	last string
+}
+
+func (r *errRing) Levels() []log.Level {
+	return []log.Level{log.ErrorLevel, log.FatalLevel, log.PanicLevel}
+}
+func (r *errRing) Fire(e *log.Entry) error {
+	r.mu.Lock()
+	msg := e.Message
+	if v, ok := e.Data[log.ErrorKey]; ok {
+		msg += ": " + fmt.Sprint(v)
+	}
+	if len(msg) > 300 {
+		msg = msg[:300]
+	}
+	r.last = msg
+	r.mu.Unlock()
+	return nil
+}
+
+var theErrRing *errRing
+var errRingOnce sync.Once
+
+func installErrRing() {
+	errRingOnce.Do(func() {
+		theErrRing = &errRing{}
+		log.AddHook(theErrRing)
+	})
+}
+
+// LastDaemonError returns the most recent error-level log line of the daemon in this process.
+func LastDaemonError() string {
+	if theErrRing == nil {
+		return ""
+	}
+	theErrRing.mu.Lock()
+	defer theErrRing.mu.Unlock()
+	return theErrRing.last
+}
+
 // ErrWedged: the daemon asked for the same directory block more than the allowed number of times without progress.
 var ErrWedged = errors.New("wedged: same height requested repeatedly without progress")
 
@@ -255,7 +300,7 @@ func (n *Node) WaitSynced(target uint32, o WaitOpts) error {
 			lim *= 2 // these heights fetch their directory block twice per attempt
 		}
 		if att > lim {
-			return fmt.Errorf("%w: height %d requested %d times", ErrWedged, last+1, att)
+			return fmt.Errorf("%w: height %d requested %d times; last daemon error: %s", ErrWedged, last+1, att, LastDaemonError())
 		}
 		n.mu.Lock()
 		ex := n.exited
